@@ -21,6 +21,24 @@ C13_MODULES = ["contracts.core_models", "contracts.c09_bounded", "contracts.c13_
 C06_MODULES = C05_MODULES + ["contracts.c13_types", "contracts.c06_names", "contracts.c06_ports", "contracts.c06_stmts"]
 
 PROPERTIES = {
+    "C11": {
+        "modules": ["contracts.core_models", "contracts.c11_frames"],
+        "level": "proof",
+        "explanation": "per-item reasons why compilation is history independent: (1) exception-safe frames -- the real bodies of the functions that set global scratch state (statemachine singleton, block stack, entity instantiation info) are executed symbolically with every uncontracted callee returning OR raising, and on every exit the state is proved restored; (2) Entity._library_declaration is proved to emit library clauses in order of first use without iterating a set of strings; (3) a mechanical, exhaustive inventory of every module/class-level state written from a function, each item classified (scratch / cache / registry / per-entity), an unclassified item makes the check undecided; (4) bounded stand-in: compile histories of length <= 2 over a pool of accepted and rejected designs and several hash seeds must give byte-identical output",
+        "assumptions": COMMON_ASSUME + [
+            "in exception-safety mode an uncontracted callee either returns an opaque value or raises; it does not itself modify the scratch state under consideration (callees that do are under contract: StatemachineContext.enter/finish are interpreted)",
+            "byte-identity of the output for ARBITRARY histories is not decided as such: the frame obligations, the inventory classification and the bounded sweep are the per-item reasons it can fail",
+            "scratch state classified 'dead on entry' (IrGenerator.returned_blocks/_break_result/_continue_result, Statement._current_frame) is argued, not proved: every read is dominated by a write of the same compilation / only error locations depend on it",
+            "known and NOT detected by a check: std._context._current_context is not reset when a design is rejected inside a std.sequential body (SequentialContext.current() of a later concurrent context would see it)",
+        ],
+        "extra": ["contracts.c11_extra.state_inventory", "contracts.c11_extra.history_sweep"],
+        "canaries": [
+            {"name": "singleton-restore", "contract": "cohdl._compiler.frontend._generate_ir:IrGenerator._apply_impl", "case": "statemachine", "file": "cohdl/_compiler/frontend/_generate_ir.py",
+             "old": "                ir.StatemachineContext._singleton = None\n                raise", "new": "                pass\n                raise"},
+            {"name": "instantiated-reset", "contract": "cohdl._core._context:Entity.__init__", "case": "first-instantiation", "file": "cohdl/_core/_context.py",
+             "old": "                info.instantiated = None\n                raise", "new": "                pass\n                raise"},
+        ],
+    },
     "C07": {
         "modules": ["contracts.core_models", "contracts.c13_types", "contracts.c07_drivers", "contracts.c07_always"],
         "level": "proof",
